@@ -269,7 +269,7 @@ FIXED = [
 
 def run(ck: Check):
     ck.trusted = TRUST
-    ck.prove(extra_targets=["Corr/Check_comp.v"])
+    ck.prove(extra_targets=["Corr/Check_comp.v", "Config/CompCfgExamples.v"])
     cases = list(FIXED) + [gen_case(ck.rng("case", i)) for i in range(ck.n(1000, 20000))]
     obs = run_cases(ck, cases)
     terms = [case_term(c, o) for c, o in zip(cases, obs)]
